@@ -190,7 +190,7 @@ type Client struct {
 }
 
 func (b *Broker) Dial() *Client {
-	cl, srv := net.Pipe()
+	cl, srv := bufPipe()
 	c := &Client{conn: cl, Ver: mqttp.ProtocolV311, done: make(chan struct{})}
 	go func() {
 		_ = b.Mgr.OnConnection(srv, b.Auth)
